@@ -22,7 +22,7 @@ import (
 const c05Tol = 2e-6
 
 func init() {
-	min := map[string]int64{"lattice_mode": 5000, "lattice_operand_equals_pen_pixels": 5000, "paths": 10000, "ops": 100000, "draws": 10000, "smooth_reflected": 1000, "smooth_from_pen": 1000, "rel_move_after_close": 1000, "nonsquare_maps": 5000, "offset_rects": 5000}
+	min := map[string]int64{"reset_before_setrasterizer": 5000, "rectangle_changed_after_reset": 5000, "lattice_mode": 5000, "lattice_operand_equals_pen_pixels": 5000, "paths": 10000, "ops": 100000, "draws": 10000, "smooth_reflected": 1000, "smooth_from_pen": 1000, "rel_move_after_close": 1000, "nonsquare_maps": 5000, "offset_rects": 5000}
 	for _, a := range gen.NonArcVerbs {
 		for _, b := range gen.NonArcVerbs {
 			min["pair/"+a.String()+">"+b.String()] = 50
@@ -143,8 +143,22 @@ func c05Path(c *run.Ctx, idx uint64) {
 func c05Run(c *run.Ctx, cfg c05Config, ops []rec.Op) bool {
 	rz := &rec.Raster{}
 	var z render.Renderer
-	z.SetRasterizer(rz, cfg.rect)
-	z.Reset(cfg.vb, ivg.DefaultPalette)
+	// the map from viewBox to rectangle is established by SetRasterizer and
+	// Reset in either order, and again when the rectangle changes afterwards
+	switch (uint64(cfg.rect.Dx())*31 + uint64(len(ops))) % 4 {
+	case 0:
+		z.Reset(cfg.vb, ivg.DefaultPalette)
+		z.SetRasterizer(rz, cfg.rect)
+		c.Count("reset_before_setrasterizer", 1)
+	case 1:
+		z.SetRasterizer(rz, image.Rect(0, 0, cfg.rect.Dx()*2+3, cfg.rect.Dy()+5))
+		z.Reset(cfg.vb, ivg.DefaultPalette)
+		z.SetRasterizer(rz, cfg.rect)
+		c.Count("rectangle_changed_after_reset", 1)
+	default:
+		z.SetRasterizer(rz, cfg.rect)
+		z.Reset(cfg.vb, ivg.DefaultPalette)
+	}
 	g := &ref.Geom{VB: cfg.vb, DX: cfg.rect.Dx(), DY: cfg.rect.Dy()}
 	vw, vh := float64(cfg.vb.MaxX-cfg.vb.MinX), float64(cfg.vb.MaxY-cfg.vb.MinY)
 	if math.Abs(float64(cfg.rect.Dx())/vw/(float64(cfg.rect.Dy())/vh)-1) > 0.1 {
